@@ -18,11 +18,14 @@ pub enum Act {
     /// enqueue response number `id` (its body size class is part of the id)
     Enq(u8),
     W(WriteEv),
+    /// three EINTR results queued on the stream, then one try_write
+    WBurst,
 }
 
 fn act_name(a: &Act) -> String {
     match a {
         Act::Enq(i) => format!("enq{}", i),
+        Act::WBurst => "w:burst3xEINTR".into(),
         Act::W(WriteEv::Accept(k)) => format!("w:accept{}", k),
         Act::W(WriteEv::AcceptAllBut(j)) => format!("w:len-{}", j),
         Act::W(WriteEv::AcceptHalf) => "w:half".into(),
@@ -36,6 +39,9 @@ fn act_name(a: &Act) -> String {
 fn parse_act(s: &str) -> Option<Act> {
     if let Some(r) = s.strip_prefix("enq") {
         return r.parse().ok().map(Act::Enq);
+    }
+    if s == "w:burst3xEINTR" {
+        return Some(Act::WBurst);
     }
     let w = s.strip_prefix("w:")?;
     Some(Act::W(if let Some(k) = w.strip_prefix("accept") {
@@ -123,11 +129,19 @@ pub fn exec(ctx: &mut Ctx, acts: &[Act]) -> bool {
                     break;
                 }
             }
-            Act::W(ev) => {
+            Act::W(_) | Act::WBurst => {
                 let has_output = cur.is_some() || !queue.is_empty();
                 if has_output {
-                    r.script.push_write(*ev);
+                    match a {
+                        Act::W(ev) => r.script.push_write(*ev),
+                        _ => {
+                            for _ in 0..3 {
+                                r.script.push_write(WriteEv::Interrupted);
+                            }
+                        }
+                    }
                 }
+                let log_before = r.script.0.borrow().write_log.len();
                 let res = match guarded(|| r.conn.try_write()) {
                     Ok(x) => x,
                     Err(p) => {
@@ -135,57 +149,78 @@ pub fn exec(ctx: &mut Ctx, acts: &[Act]) -> bool {
                         break;
                     }
                 };
-                let nwrites = r.script.write_calls() - writes_before;
+                let entries: Vec<(usize, i64)> = r.script.0.borrow().write_log[log_before..].to_vec();
                 if !has_output {
                     ctx.rep.count("writes_with_nothing_pending");
-                    if !matches!(res, Err(ConnectionError::InvalidWrite)) || nwrites != 0 {
-                        fault = Some(("invalid-write".into(), format!("nothing pending: try_write returned {:?} and made {} stream writes", res, nwrites)));
+                    if !matches!(res, Err(ConnectionError::InvalidWrite)) || !entries.is_empty() {
+                        fault = Some(("invalid-write".into(), format!("nothing pending: try_write returned {:?} and made {} stream writes", res, entries.len())));
                         break;
                     }
                 } else {
-                    if nwrites != 1 {
-                        fault = Some(("write-count".into(), format!("{} stream writes in one try_write", nwrites)));
+                    if entries.is_empty() {
+                        fault = Some(("no-write".into(), format!("output is pending but try_write ({:?}) did not write to the stream", res)));
                         break;
                     }
-                    if cur.is_none() {
-                        cur = Some((queue.pop_front().unwrap(), 0));
+                    if entries.len() > 1 {
+                        // not forbidden by this property (C03 judges the number of writes per call)
+                        ctx.rep.count("calls_with_more_than_one_stream_write");
                     }
-                    let (buf, sent) = cur.as_mut().unwrap();
-                    let remaining = buf.len() - *sent;
-                    let (offered, result) = *r.script.0.borrow().write_log.last().unwrap();
-                    if offered != remaining {
-                        fault = Some(("offered-length".into(), format!("the stream was offered {} bytes, the unsent remainder of the head response is {}", offered, remaining)));
-                        break;
-                    }
-                    if result > 0 {
-                        let n = result as usize;
-                        expected_accepted.extend_from_slice(&buf[*sent..*sent + n]);
-                        *sent += n;
-                        if *sent == buf.len() {
-                            cur = None;
-                            ctx.rep.count("responses_fully_written");
+                    // replay what the stream saw, write by write, on the shadow queue
+                    let mut discarded = false;
+                    let mut last_result = 0i64;
+                    for (offered, result) in entries.iter() {
+                        if discarded {
+                            fault = Some(("write-after-failure".into(), "the stream was written to again after it had reported a failure in the same call".into()));
+                            break;
+                        }
+                        if cur.is_none() {
+                            match queue.pop_front() {
+                                Some(b) => cur = Some((b, 0)),
+                                None => {
+                                    fault = Some(("phantom-write".into(), format!("the stream was offered {} bytes although nothing is pending", offered)));
+                                    break;
+                                }
+                            }
+                        }
+                        let (buf, sent) = cur.as_mut().unwrap();
+                        let remaining = buf.len() - *sent;
+                        if *offered != remaining {
+                            fault = Some(("offered-length".into(), format!("the stream was offered {} bytes, the unsent remainder of the head response is {}", offered, remaining)));
+                            break;
+                        }
+                        last_result = *result;
+                        if *result > 0 {
+                            let n = *result as usize;
+                            expected_accepted.extend_from_slice(&buf[*sent..*sent + n]);
+                            *sent += n;
+                            if *sent == buf.len() {
+                                cur = None;
+                                ctx.rep.count("responses_fully_written");
+                            } else {
+                                partials += 1;
+                            }
+                        } else if *result == -(libc::EINTR as i64) {
+                            ctx.rep.count("eintr_writes");
                         } else {
-                            partials += 1;
+                            discards += 1;
+                            discarded = true;
+                            cur = None;
+                            queue.clear();
                         }
-                        if res.is_err() {
-                            fault = Some(("accepted-but-error".into(), format!("stream accepted {} bytes but try_write returned {:?}", n, res)));
-                            break;
-                        }
-                    } else if result == -(libc::EINTR as i64) {
-                        ctx.rep.count("eintr_writes");
-                        if res.is_err() {
-                            fault = Some(("eintr".into(), format!("interrupted write must change nothing and return Ok, got {:?}", res)));
-                            break;
-                        }
-                    } else {
-                        // zero bytes or a non-interrupt error: everything pending is discarded
-                        discards += 1;
-                        cur = None;
-                        queue.clear();
+                    }
+                    if fault.is_some() {
+                        break;
+                    }
+                    // the return value follows the last thing the stream said
+                    if discarded {
                         if !matches!(res, Err(ConnectionError::ConnectionClosed)) {
-                            fault = Some(("failure-not-reported".into(), format!("stream failed (result {}) but try_write returned {:?}", result, res)));
+                            fault = Some(("failure-not-reported".into(), format!("stream failed (result {}) but try_write returned {:?}", last_result, res)));
                             break;
                         }
+                    } else if res.is_err() {
+                        let kind = if last_result == -(libc::EINTR as i64) { "eintr" } else { "accepted-but-error" };
+                        fault = Some((kind.into(), format!("the stream only accepted bytes or was interrupted (last result {}), yet try_write returned {:?}; an interrupted write must change nothing", last_result, res)));
+                        break;
                     }
                 }
             }
@@ -226,7 +261,8 @@ pub fn exec(ctx: &mut Ctx, acts: &[Act]) -> bool {
     false
 }
 
-const ALPHABET: [Act; 10] = [
+const ALPHABET: [Act; 11] = [
+    Act::WBurst,
     Act::Enq(1),
     Act::Enq(6),
     Act::W(WriteEv::Accept(1)),
@@ -244,6 +280,7 @@ pub fn run(ctx: &mut Ctx) {
     // ---- exhaustive interleavings of enqueue and write calls with every stream behaviour
     let depth: u32 = if quick { 6 } else { 8 };
     let total = (ALPHABET.len() as u64).pow(depth);
+    let base = ALPHABET.len() as u64;
     let mut violations_here = 0;
     for idx in 0..total {
         if !ctx.mine(idx) {
@@ -252,8 +289,8 @@ pub fn run(ctx: &mut Ctx) {
         let mut x = idx;
         let mut acts = Vec::with_capacity(depth as usize + 2);
         for _ in 0..depth {
-            acts.push(ALPHABET[(x % 10) as usize]);
-            x /= 10;
+            acts.push(ALPHABET[(x % base) as usize]);
+            x /= base;
         }
         // finish by flushing whatever is left, so that "no byte lost" is checked to the end
         acts.push(Act::W(WriteEv::Accept(usize::MAX)));
@@ -302,6 +339,10 @@ pub fn run(ctx: &mut Ctx) {
                 acts.push(Act::Enq(rng.below(20) as u8));
                 outstanding += 1;
             } else {
+                if rng.chance(1, 25) {
+                    acts.push(Act::WBurst);
+                    continue;
+                }
                 let ev = match rng.below(14) {
                     0 => WriteEv::Interrupted,
                     1 => WriteEv::WouldBlock,
